@@ -11,6 +11,42 @@ from .poly import Poly
 from .values import Const, FuncV, ListV, NONE, ObjV, SetV, TV, Unk
 
 
+def find_grad_validators(index) -> dict:
+    """Functions that reject (raise ValueError) a tensor by looking at requires_grad / is_leaf / retains_grad.
+
+    Found structurally, not by name: a `raise ValueError` guarded by a test whose expression — inlining the return
+    expression of repository predicates it calls — reads those attributes. 'full' = tests requires_grad and
+    (is_leaf or retains_grad); anything less is 'weak'."""
+    import ast
+
+    def attrs_of(expr, fi, depth=0):
+        out = set()
+        for n in ast.walk(expr):
+            if isinstance(n, ast.Attribute) and n.attr in ("requires_grad", "is_leaf", "retains_grad"):
+                out.add(n.attr)
+            if isinstance(n, ast.Call) and isinstance(n.func, ast.Name) and depth < 2:
+                callee = index.resolve_name(fi.module, n.func.id)
+                from .index import FunctionInfo
+
+                if isinstance(callee, FunctionInfo):
+                    for r in ast.walk(callee.node):
+                        if isinstance(r, ast.Return) and r.value is not None:
+                            out |= attrs_of(r.value, callee, depth + 1)
+        return out
+
+    found = {}
+    for fi in index.all_functions("torchjd.autojac"):
+        if fi.parent is not None:
+            continue
+        for n in ast.walk(fi.node):
+            if isinstance(n, ast.If) and any(isinstance(x, ast.Raise) and "ValueError" in ast.unparse(x) for b in n.body for x in ast.walk(b)):
+                a = attrs_of(n.test, fi)
+                if a & {"is_leaf", "retains_grad", "requires_grad"}:
+                    full = "requires_grad" in a and ("is_leaf" in a or "retains_grad" in a)
+                    found[fi.qualname] = "full" if full else "weak"
+    return found
+
+
 def flag(name):
     return TV(kind="pybool", dtype="Bool", origin=frozenset([name]), note="flag")
 
@@ -22,6 +58,7 @@ class PipeAnalysis:
         self.interp = Interp(index, self.ops)
         self.interp.hooks["call"] = self.hook
         self.agg_cls = index.get_class("torchjd.aggregation.bases.Aggregator")
+        self.validators = find_grad_validators(index)  # qualname -> "full" | "weak"
 
     # ---- hooks: summarised callees
     def hook(self, info, bound, node):
@@ -38,9 +75,11 @@ class PipeAnalysis:
                     raise AbsRaise("ValueError", node, info.loc())
             at = "leaves(" + "+".join(sorted(self.ops.atoms_of(t))) + (("\\" + "+".join(sorted(self.ops.atoms_of(ex)))) if not self._empty(ex) else "") + ")"
             return SetV(items=None, elem=key_tv(at), atoms=frozenset([at]))
-        if info.name == "_check_expects_grad" and info.cls is None:
-            t = bound.get("tensor")
-            self.ops.pev("expects_grad_check", node, target=sorted(t.origin) if isinstance(t, TV) else None)
+        if info.qualname in self.validators:
+            params = [a.arg for a in info.node.args.args if a.arg not in ("self", "cls")]
+            t = bound.get(params[0]) if params else None
+            tgt = sorted(t.origin) if isinstance(t, TV) else sorted(self.ops.atoms_of(t)) if t is not None else None
+            self.ops.pev("expects_grad_check", node, target=tgt, strength=self.validators[info.qualname], validator=info.qualname)
             return None
         if info.cls is not None and self.agg_cls in info.cls.mro and info.name == "__call__":
             m = bound.get("matrix")
@@ -66,10 +105,10 @@ class PipeAnalysis:
     def aggregator(self):
         return ObjV(self.agg_cls)
 
-    def run_backward(self, inputs_given: bool, chunk_given: bool):
+    def run_backward(self, inputs_given: bool, chunk_given: bool, single: bool = False):
         f = self.index.get_function("torchjd.autojac.backward.backward")
         args = {
-            "tensors": keys_list("tensors"),
+            "tensors": key_tv("tensors") if single else keys_list("tensors"),
             "aggregator": self.aggregator(),
             "inputs": keys_list("inputs") if inputs_given else NONE,
             "retain_graph": flag("retain_graph"),
@@ -77,12 +116,12 @@ class PipeAnalysis:
         }
         return self._run(f, args)
 
-    def run_mtl(self, tasks_given: bool, shared_given: bool, chunk_given: bool):
+    def run_mtl(self, tasks_given: bool, shared_given: bool, chunk_given: bool, single: bool = False):
         f = self.index.get_function("torchjd.autojac.mtl_backward.mtl_backward")
         tp = ListV(items=None, elem=keys_list("tasks_params[i]"), kind="list", order=(("tasks",), "same"))
         args = {
             "losses": ListV(items=None, elem=key_tv("losses[i]"), kind="list", order=(("tasks",), "same")),
-            "features": keys_list("features"),
+            "features": key_tv("features") if single else keys_list("features"),
             "aggregator": self.aggregator(),
             "tasks_params": tp if tasks_given else NONE,
             "shared_params": keys_list("shared_params") if shared_given else NONE,
